@@ -393,6 +393,7 @@ func propC12(c *Check) {
 	// a table cut between two versions of one key lets a later compaction pick the table holding
 	// the marker without the one holding the older version (same level is never scanned by the guard)
 	ruleR14_2(c)
+	ruleR01_5(c) // a read in progress keeps the tables it looks at alive across the compaction that replaces them
 }
 
 // ---- C13 ----
